@@ -164,6 +164,15 @@ func vExpectPanic(f func()) (panicked bool) {
 var vClock int64
 
 func vNow() int64 {
+	// replay: the witness carries the instants the harness read
+	vMu.Lock()
+	if vPos < len(vVector) && vVector[vPos].Tag == "clock" {
+		f, _ := vVector[vPos].Val.(float64)
+		vPos++
+		vMu.Unlock()
+		return int64(f)
+	}
+	vMu.Unlock()
 	vMu.Lock()
 	defer vMu.Unlock()
 	n := time.Now().UnixNano()
